@@ -49,7 +49,6 @@ func (e *Exec) binop(fr *frame, st *State, op token.Token, x, y Val, xt, rt type
 		case token.NEQ:
 			return b(not(eq(x.T, y.T)))
 		default:
-			e.ctx.declareFun("s_lt", []string{sStr, sStr}, sBool)
 			switch op {
 			case token.LSS:
 				return b(app("s_lt", x.T, y.T))
